@@ -84,7 +84,7 @@ def Op.refs : Op → List Nat
   | .rebind _ pairs _ => pairs.flatMap (fun p => p.2.2.refs)
   | _ => []
 
-/-- F30 (and its stale-parent variant F33): an offered node object that would be *moved* (it
+/-- F30 (and its stale-parent variant F78): an offered node object that would be *moved* (it
 believes it has no parent) and that contains the written container or any of its *believed*
 ancestors: pyglove builds a cycle of parents and its path update / notification walk never
 terminates. -/
@@ -98,7 +98,7 @@ def divergent (f : Forest) (op : Op) : Bool :=
       | some (.node m its) => m.parent.isNone && chain.any (fun c => (Tree.node m its).ids.contains c)
       | _ => false)
 
-/-- F32: an existing child of a list offered as an *insertion* into that very list: when the
+/-- F79: an existing child of a list offered as an *insertion* into that very list: when the
 insertion index is the child's own index, `_relocate_if_symbolic` keeps the very node and the
 list then holds one object twice. (Excluded for every index: the glue never produces it.) -/
 def insertsOwnChild (f : Forest) : Op → Bool
